@@ -685,7 +685,7 @@ fn main() {
             // cookie and login probes run with a maximum of 1000 bytes or more
             let small = i % 3 == 0;
             let max = if small { if i == 0 { 64u64 } else { *r.pick(&[64u64, 100, 300]) } } else { *r.pick(&[1000u64, 10_000, 20_000]) };
-            let expiry = if i % 3 == 1 { 100 } else if i % 3 == 2 { 50_000 } else { *r.pick(&[1u64, 3600, 21_600, 86_400, 0, 0]) };
+            let expiry = if i % 3 == 1 { [100u64, 0, 1, 60][((i / 3) % 4) as usize] } else if i % 3 == 2 { 50_000 } else { *r.pick(&[1u64, 3600, 21_600, 86_400]) };
             let secret = format!("secret-{}", r.below(1000));
             let timeout_s = *r.pick(&[3u64, 5, 8]);
             let cfg = Cfg { max, expiry, secret: Some(secret), timeout_s, lim: None, proxy: None };
